@@ -802,8 +802,35 @@ func ruleC04EntryMatcher(c *Ctx) {
 					why = append(why, "the error of "+callee+" is not forwarded with its rows")
 				}
 				if name != "Exec" {
-					a := call.Call.Args
-					if len(a) != 3 || !isCatalogOf(a[1], "left") || !isCatalogOf(a[2], "right") {
+					// the two catalogs are built from the two sides (which field holds which side after the entry's
+					// swap is c04.matcher-siblings' business): distinct fields among left/right, first and second
+					ta := r.Args
+					sideOf := func(t *Term) string {
+						// the field as written at the ToCatalog call (the path walker forgets stores across calls, so
+						// the term of the loaded value is not reliable after the swap)
+						x := ext0(t)
+						if _, ok := callArgs(x, "ToCatalog"); x == nil || !ok {
+							return ""
+						}
+						cc, isCall := x.V.(*ssa.Call)
+						if !isCall || len(cc.Call.Args) < 1 {
+							return ""
+						}
+						ld, isLd := cc.Call.Args[0].(*ssa.UnOp)
+						if !isLd {
+							return ""
+						}
+						fa, isFa := ld.X.(*ssa.FieldAddr)
+						if !isFa {
+							return ""
+						}
+						return fieldName(fa.X.Type(), fa.Field)
+					}
+					s1, s2 := "", ""
+					if len(ta) == 3 {
+						s1, s2 = sideOf(ta[1]), sideOf(ta[2])
+					}
+					if !(s1 == "left" && s2 == "right") {
 						why = append(why, "the matcher is not applied to (catalog of j.left, catalog of j.right): "+r.String())
 					}
 				}
@@ -822,28 +849,6 @@ func ruleC04EntryMatcher(c *Ctx) {
 		}
 		c.Check(len(why) == 0, "c04.entry-matcher", key, c.P.Pos(f.Pos()), "every success return forwards "+strings.Join(want[name], "/"), strings.Join(uniq(why), "; "))
 	}
-}
-
-// isCatalogOf: the value is result 0 of ToCatalog(load of <j>.side, ...) — the field as it stands at the call
-// (after the entry's side swap, if any).
-func isCatalogOf(v ssa.Value, side string) bool {
-	ex, ok := v.(*ssa.Extract)
-	if !ok || ex.Index != 0 {
-		return false
-	}
-	call, ok := ex.Tuple.(*ssa.Call)
-	if !ok || call.Common().StaticCallee() == nil || call.Common().StaticCallee().Name() != "ToCatalog" || len(call.Call.Args) < 1 {
-		return false
-	}
-	ld, ok := call.Call.Args[0].(*ssa.UnOp)
-	if !ok {
-		return false
-	}
-	fa, ok := ld.X.(*ssa.FieldAddr)
-	if !ok {
-		return false
-	}
-	return fieldName(fa.X.Type(), fa.Field) == side
 }
 
 // the ON predicate of the nested-loop matcher is an ordinary comparison: its operator table and the
